@@ -82,6 +82,8 @@ KINDS = ('plain', 'renamed', 'split', 'changed', 'mix')
 VALUE_KINDS = ('default', 'variant', 'different', 'dquote', 'allow', 'deny',
                'empty', 'list1', 'list2', 'list0', 'alias', 'casevariant',
                'aliasprefix', 'aliaslist', 'aliasspaced')
+QUICK_VARIANT_KINDS = ('default', 'different', 'empty', 'list1', 'alias',
+                       'aliaslist')
 TEXT_KINDS = ('default', 'variant', 'different', 'allow', 'deny', 'empty',
               'casevariant')
 
@@ -238,6 +240,12 @@ def run(job, seed):
     reg_names = [d.name for d in defaults]
     if tool in ('generator', 'redundant'):
         it = files_for(P, kind, nmax, TEXT_KINDS, with_deprecated=False)
+    elif job['tier'] == 'quick' and tool in ('upgrade-json', 'upgrade-2ns',
+                                             'upgrade-inplace'):
+        # quick tier: the variants of the upgrade tool differ from
+        # upgrade-yaml in how files and namespaces are handled, not in how
+        # values are - a reduced value menu (the full one in thorough)
+        it = files_for(P, kind, nmax, QUICK_VARIANT_KINDS)
     else:
         it = files_for(P, kind, nmax, VALUE_KINDS)
     for idx, (f, vks) in enumerate(it):
